@@ -640,10 +640,14 @@ func walkIPRanges(ranges []nets.IPRange, f func(ip net.IP) bool) {
 	for _, r := range ranges {
 		first := nets.IPToInt(r.First)
 		last := nets.IPToInt(r.Last)
-		for ; first <= last; first++ {
-			ip := nets.IntToIP(first)
+		for i := first; i <= last; i++ {
+			ip := nets.IntToIP(i)
 			if f(ip) {
 				return
+			}
+			if i == last {
+				// i++ would wrap around to 0 for 255.255.255.255 and the loop would never end
+				break
 			}
 		}
 	}
